@@ -83,6 +83,9 @@ impl StageSpec {
 struct Pipeline {
     msgs: Vec<MsgSpec>,
     stages: Vec<StageSpec>,
+    /// Some(i): msgs[i..] is a long tidy tail (a producer that would go on for a long time): after a consumer
+    /// drop the producer must be refused a message long before its input ends
+    tail_from: Option<usize>,
 }
 
 /// one scripted run of a pipeline
@@ -209,6 +212,7 @@ struct RunOut {
     taps: Vec<Vec<u32>>,   // per stage: indices passed to outflow, in order
     results: Vec<StageRes>, // per stage
     producer_sent: usize,
+    sent_at_drop: usize, // messages the producer had sent when the consumer dropped its receiver
     producer_err: bool,
     hung: Vec<usize>, // thread numbers (0 = producer, i+1 = stage i) not finished within the timeout
     full_hits: usize, // sends that took the Full branch of the helper (measured: >= 9 ms)
@@ -261,6 +265,8 @@ fn run_real(p: &Pipeline, s: &Script, hang_timeout: Duration) -> RunOut {
     let prod_script = s.prod.clone();
     let g = DoneGuard(done_tx.clone(), 0);
     let fh = full_hits.clone();
+    let sent_ctr = Arc::new(std::sync::atomic::AtomicUsize::new(0));
+    let sent_ctr2 = sent_ctr.clone();
     let producer = std::thread::spawn(move || {
         let _g = g;
         let mut sent = 0usize;
@@ -271,7 +277,10 @@ fn run_real(p: &Pipeline, s: &Script, hang_timeout: Duration) -> RunOut {
             }
             let t = Instant::now();
             match sync_sender_send_delay_if_full(msg, &tx0) {
-                Ok(()) => sent += 1,
+                Ok(()) => {
+                    sent += 1;
+                    sent_ctr2.store(sent, std::sync::atomic::Ordering::SeqCst);
+                }
                 Err(_) => {
                     err = true;
                     break;
@@ -390,6 +399,7 @@ fn run_real(p: &Pipeline, s: &Script, hang_timeout: Duration) -> RunOut {
         }
     }
     drop(rx);
+    let sent_at_drop = sent_ctr.load(std::sync::atomic::Ordering::SeqCst);
 
     // join with a timeout: every thread announces its end through its guard
     let deadline = Instant::now() + hang_timeout;
@@ -421,7 +431,7 @@ fn run_real(p: &Pipeline, s: &Script, hang_timeout: Duration) -> RunOut {
         }
     }
     let taps = taps.iter().map(|t| t.lock().unwrap().clone()).collect();
-    RunOut { delivered, taps, results, producer_sent, producer_err, hung, full_hits: full_hits.load(std::sync::atomic::Ordering::Relaxed), wall_ms: t0.elapsed().as_millis() }
+    RunOut { delivered, taps, results, producer_sent, sent_at_drop, producer_err, hung, full_hits: full_hits.load(std::sync::atomic::Ordering::Relaxed), wall_ms: t0.elapsed().as_millis() }
 }
 
 // ------------------------------------------------------------------ canonicalisation
@@ -531,6 +541,22 @@ fn oracle(p: &Pipeline, s: &Script, r: &RunOut, b: &RunOut) -> Verdict {
                     }
                 }
             }
+            // a producer with a long tidy tail: once the consumer is gone the stages must stop pulling from it
+            if let Some(tf) = p.tail_from {
+                if k < rd.len() {
+                    let caps: usize = s.caps.iter().filter(|c| **c < LARGE).sum();
+                    let bound = b.sent_at_drop + tf.saturating_sub(b.sent_at_drop) + L_CONF + 20 + caps + p.stages.len() + 4;
+                    if b.producer_sent > bound {
+                        return fail(
+                            "bounded_pull_after_consumer_loss",
+                            format!("the consumer dropped after {} messages when the producer had sent {}; the pipeline pulled {} messages in total (bound {}, input {}), producer told: {}", k, b.sent_at_drop, b.producer_sent, bound, p.msgs.len(), b.producer_err),
+                        );
+                    }
+                    if bound < p.msgs.len() && !b.producer_err {
+                        return fail("producer_told_after_consumer_loss", format!("the producer sent all {} messages and was never refused one", b.producer_sent));
+                    }
+                }
+            }
         }
     }
     Verdict::Ok
@@ -623,7 +649,7 @@ fn gen_pipeline(rng: &mut Rng, max_msgs: u64) -> Pipeline {
     if rng.chance(1, 2) || stages.is_empty() {
         stages.push(StageSpec::Filter(gen_filters(rng)));
     }
-    Pipeline { msgs, stages }
+    Pipeline { msgs, stages, tail_from: None }
 }
 
 fn gen_script(rng: &mut Rng, p: &Pipeline, vector: usize, ref_out: usize) -> Script {
@@ -679,6 +705,16 @@ fn gen_script(rng: &mut Rng, p: &Pipeline, vector: usize, ref_out: usize) -> Scr
     } else {
         None
     };
+    let (caps, drop_at) = match p.tail_from {
+        Some(tf) => {
+            let caps: Vec<usize> = (0..n).map(|_| *rng.pick(&[0usize, 1, 2, 4])).collect();
+            // drop points all over the prefix's outputs: the lifecycle stage is then blocked in a drain burst, in a
+            // direct forward, or still buffering
+            let d = if vector % 5 == 4 { None } else { Some(rng.below((ref_out.min(tf + 4)) as u64 + 1) as usize) };
+            (caps, d)
+        }
+        None => (caps, drop_at),
+    };
     let sched = (0..48).map(|_| rng.below(997)).collect();
     // pacing inside the pipeline: before the j-th send of a stage (mostly nothing / yields, a few short stalls)
     let hops = (0..p.stages.len())
@@ -730,7 +766,7 @@ fn coq_case(p: &Pipeline, s: &Script, r: &RunOut) -> String {
         inp = out.clone();
     }
     format!(
-        "({}, {}, {}, {}, {}, {})",
+        "inl ({}, {}, {}, {}, {}, {})",
         cnums(&s.caps),
         copt(s.drop_at.map(|k| k.to_string())),
         cnums(&s.sched),
@@ -741,7 +777,7 @@ fn coq_case(p: &Pipeline, s: &Script, r: &RunOut) -> String {
 }
 
 fn case_json(p: &Pipeline, s: &Script) -> Value {
-    json!({"msgs": p.msgs, "stages": p.stages.iter().map(|s| s.to_json()).collect::<Vec<_>>(),
+    json!({"tail_from": p.tail_from, "msgs": p.msgs, "stages": p.stages.iter().map(|s| s.to_json()).collect::<Vec<_>>(),
            "caps": s.caps, "prod": s.prod, "cons": s.cons, "drop_at": s.drop_at, "sched": s.sched, "attr_seed": s.attr_seed.to_string(), "hops": s.hops})
 }
 fn case_from_json(v: &Value) -> (Pipeline, Script) {
@@ -756,7 +792,7 @@ fn case_from_json(v: &Value) -> (Pipeline, Script) {
         attr_seed: v["attr_seed"].as_str().unwrap().parse().unwrap(),
         hops: serde_json::from_value(v["hops"].clone()).unwrap_or_default(),
     };
-    (Pipeline { msgs, stages }, s)
+    (Pipeline { msgs, stages, tail_from: v["tail_from"].as_u64().map(|x| x as usize) }, s)
 }
 
 fn reference_script(p: &Pipeline) -> Script {
@@ -799,8 +835,454 @@ fn run_case(p: &Pipeline, s: &Script, r: &RunOut, hang: Duration) -> Done {
             tags.push("live_sort_order_differs".into());
         }
     }
+    if p.tail_from.is_some() {
+        tags.push("long_tail_producer".into());
+    }
     tags.push(format!("msgs_{}", match p.msgs.len() { 0 => "0", 1..=2 => "1-2", 3..=15 => "3-15", _ => "16+" }));
     Done { p: p.clone(), s: s.clone(), input_coq: coq_case(p, s, r), obs, verdict, tags, full_hits: b.full_hits, wall_ms: b.wall_ms }
+}
+
+
+// ================================================================== loss experiments (mode A)
+// ONE real stage function; a lock-step live producer on a rendezvous inflow (it hands message i+1 only when the
+// stage sits in recv() again and stops when its send fails or its budget is used up); a closure outflow that
+// accepts k messages and fails from then on.  k is swept over every outflow call of the undisturbed run, so the
+// first failing send lands in every send site of the stage (direct forward, drain after confirmation / merge,
+// final flush).  Everything here is deterministic: no sleeps, no real consumer thread.
+
+/// messages of trace time the tidy tail needs to get every lifecycle confirmed (61 s / 1.1 s + first-message effects)
+const L_CONF: usize = 80;
+const TAIL_STEP_US: u64 = 1_100_000;
+
+#[derive(Clone, Debug)]
+struct LossScenario {
+    kind: StageSpec,
+    msgs: Vec<MsgSpec>, // prefix followed by the tidy tail
+    tail_from: usize,
+    family: String,
+}
+
+/// tidy continuation of every ecu of the prefix: no new lifecycle after the first tail message of an ecu, reception
+/// time strictly increasing in steps > 1 s (so that the once-per-second confirmation check runs on every message)
+fn tidy_tail(prefix: &[MsgSpec], len: usize) -> Vec<MsgSpec> {
+    let mut ecus: Vec<u8> = prefix.iter().map(|m| m.0).collect();
+    ecus.sort();
+    ecus.dedup();
+    if ecus.is_empty() {
+        ecus.push(1);
+    }
+    let t0 = prefix.iter().map(|m| m.1).max().unwrap_or(RHO) + TAIL_STEP_US;
+    let base: Vec<u64> = ecus
+        .iter()
+        .map(|e| match prefix.iter().rev().find(|m| m.0 == *e && m.3 == 0 && m.2 > 0 && m.1 > m.2 as u64 * 100) {
+            Some(m) => m.1 - m.2 as u64 * 100,
+            None => prefix.iter().rev().find(|m| m.0 == *e).map(|m| m.1.saturating_sub(1_000_000)).unwrap_or(RHO),
+        })
+        .collect();
+    (0..len)
+        .map(|j| {
+            let e = j % ecus.len();
+            let rt = t0 + j as u64 * TAIL_STEP_US;
+            let ts_us = rt - base[e].min(rt - 100);
+            (ecus[e], rt, (ts_us / 100).min(u32::MAX as u64) as u32, 0u8)
+        })
+        .collect()
+}
+
+/// prefixes that make the lifecycle stage use each of its send sites
+fn gen_lc_prefix(rng: &mut Rng, family: u64, max: u64) -> (Vec<MsgSpec>, String) {
+    let s = 1_000_000u64;
+    match family {
+        // several ecus starting at different times, dense for a while, running past the 60 s span that confirms a
+        // lifecycle: confirmation bursts (.send 1) with messages of already confirmed lifecycles in between (.send 2)
+        0 | 1 => {
+            let necu = rng.range(1, 3) as usize;
+            let n = rng.range(4, max) as usize;
+            let total = rng.range(40, 140) * s;
+            let start: Vec<u64> = (0..necu).map(|e| if e == 0 { 0 } else { rng.below(50) * s }).collect();
+            let delay: Vec<u64> = (0..necu).map(|_| rng.below(300_000)).collect();
+            let mut reboot_at: Vec<Option<u64>> = vec![None; necu];
+            if family == 1 {
+                // one ecu reboots somewhere: its new lifecycle is buffered for the next 60 s, everything queues behind it
+                let e = rng.below(necu as u64) as usize;
+                reboot_at[e] = Some(start[e] + rng.range(5, 100) * s);
+            }
+            let mut v = vec![];
+            let mut t = 0u64;
+            for _ in 0..n {
+                t += rng.range(1, 2 * total / n as u64 + 1);
+                let e = rng.below(necu as u64) as usize;
+                if t < start[e] {
+                    continue;
+                }
+                let (boot, gap) = match reboot_at[e] {
+                    Some(r) if t >= r => (r + rng.range(3, 20) * s, true),
+                    _ => (start[e], false),
+                };
+                let _ = gap;
+                if t < boot + 1000 {
+                    continue;
+                }
+                let up = t - boot;
+                v.push((e as u8 + 1, RHO + t + delay[e], (up / 100) as u32, if rng.chance(1, 15) { 1 } else { 0 }));
+            }
+            (v, if family == 0 { "confirm_burst".into() } else { "reboot".into() })
+        }
+        // a confirmed lifecycle, an apparent reboot (new buffered lifecycle with a few messages), then a message that
+        // pulls the new lifecycle's start back into the old one: merge, buffered_lcs runs empty, the whole queue is
+        // drained by the merge path (.send 4)
+        2 => {
+            let mut v: Vec<MsgSpec> = vec![];
+            let span = rng.range(62, 90);
+            let n1 = rng.range(3, 10);
+            for i in 0..n1 {
+                let up = (i * span / (n1 - 1)) * s + 1000;
+                v.push((1, RHO + up, (up / 100) as u32, 0));
+            }
+            let other = rng.chance(1, 2);
+            if other {
+                // a second ecu that is confirmed as well and keeps running: its messages queue behind the apparent reboot
+                for i in 0..n1 {
+                    let up = (i * span / (n1 - 1)) * s + 2000;
+                    v.insert((2 * i + 1) as usize, (2, RHO + up + 10, (up / 100) as u32, 0));
+                }
+            }
+            let rb = RHO + (span + rng.range(8, 20)) * s; // reception of the first message after the "reboot"
+            let nq = rng.range(2, 12);
+            for i in 0..nq {
+                let up = s + i * 100_000;
+                v.push((1, rb + i * 100_000, (up / 100) as u32, 0));
+                if other && i % 2 == 0 {
+                    let upb = (rb - RHO) + i * 100_000;
+                    v.push((2, rb + i * 100_000 + 10, (upb / 100) as u32, 0));
+                }
+            }
+            // lc_start = reception - timestamp falls a few seconds before the end of the first lifecycle
+            let back = rng.range(3, 20) * s;
+            let rt = rb + nq * 100_000;
+            let want_start = RHO + span * s - back;
+            let probe = v.len();
+            v.push((1, rt, ((rt - want_start) / 100) as u32, 0));
+            for i in 0..rng.below(4) {
+                let rt2 = rt + (i + 1) * 200_000;
+                v.push((1, rt2, ((rt2 - want_start) / 100) as u32, 0));
+            }
+            (v, format!("merge_drain@{}", probe))
+        }
+        _ => (gen_msgs(rng, max), "mixed".into()),
+    }
+}
+
+/// threaded variant: the lifecycle stage (and stages behind it that forward every tail message) on small channels,
+/// producer = prefix + long tidy tail, consumer dropping somewhere in the prefix's outputs
+fn gen_loss_pipeline(rng: &mut Rng, i: usize, max: u64) -> Pipeline {
+    let (prefix, _) = gen_lc_prefix(rng, (i % 3) as u64, max.min(30));
+    let tail_from = prefix.len();
+    let mut msgs = prefix.clone();
+    msgs.extend(tidy_tail(&prefix, 2 * L_CONF));
+    let stages = match rng.below(4) {
+        0 => vec![StageSpec::Lc],
+        1 => vec![StageSpec::Lc, StageSpec::Plugins(0, vec![])],
+        2 => vec![StageSpec::Lc, StageSpec::Sort(3, *rng.pick(&[0u64, 1_000, 100_000]), false)],
+        _ => vec![StageSpec::Lc, StageSpec::Plugins(0, vec![]), StageSpec::Filter(vec![r#"{"type":1,"ctid":"DC1"}"#.to_string()])],
+    };
+    Pipeline { msgs, stages, tail_from: Some(tail_from) }
+}
+
+fn gen_loss_scenarios(rng: &mut Rng, n_lc: usize, n_other: usize, max: u64) -> Vec<LossScenario> {
+    let mut v = vec![];
+    for i in 0..n_lc {
+        let (prefix, family) = gen_lc_prefix(rng, (i % 4) as u64, max);
+        let tail_from = prefix.len();
+        let mut msgs = prefix.clone();
+        msgs.extend(tidy_tail(&prefix, 3 * L_CONF));
+        v.push(LossScenario { kind: StageSpec::Lc, msgs, tail_from, family });
+    }
+    for i in 0..n_other {
+        let prefix = gen_msgs(rng, max);
+        let tail_from = prefix.len();
+        let mut msgs = prefix.clone();
+        msgs.extend(tidy_tail(&prefix, 30));
+        let kind = match i % 3 {
+            0 => StageSpec::Plugins(if rng.chance(1, 2) { 0 } else { rng.range(2, 5) as u32 }, vec![]),
+            1 => StageSpec::Sort(*rng.pick(&[1u8, 3]), *rng.pick(&[0u64, 1_000, 100_000, 2_000_000, 20_000_000]), false),
+            _ => StageSpec::Filter(gen_filters(rng)),
+        };
+        v.push(LossScenario { kind, msgs, tail_from, family: "mixed".into() });
+    }
+    v
+}
+
+struct LossRun {
+    handed: usize,            // messages the stage pulled from its inflow
+    disconnected: bool,       // the producer's send failed: it was told that the stage is gone
+    returned: bool,           // the stage function returned (within the watchdog)
+    calls: Vec<(u32, usize)>, // accepted outflow calls: (message index, iteration = index of the input being processed)
+    first_fail: Option<usize>, // iteration of the first failed outflow call
+    failed_calls: usize,
+}
+
+struct CallLog {
+    ok: Vec<(u32, usize)>,
+    first_fail: Option<usize>,
+    failed: usize,
+}
+
+fn run_loss(sc: &LossScenario, k: Option<usize>, watchdog: Duration) -> LossRun {
+    use std::sync::mpsc::TrySendError;
+    let handed = Arc::new(Mutex::new(0usize));
+    let log = Arc::new(Mutex::new(CallLog { ok: vec![], first_fail: None, failed: 0 }));
+    let (tx, rx) = sync_channel::<DltMessage>(0);
+    let (done_tx, done_rx) = sync_channel::<usize>(1);
+    let (h2, l2) = (handed.clone(), log.clone());
+    let kind = sc.kind.clone();
+    let th = std::thread::spawn(move || {
+        let _g = DoneGuard(done_tx, 0);
+        let outflow = |m: DltMessage| {
+            let h = *h2.lock().unwrap();
+            let mut l = l2.lock().unwrap();
+            if k.map_or(true, |k| l.ok.len() < k) {
+                l.ok.push((m.index, h.saturating_sub(1)));
+                Ok(())
+            } else {
+                if l.first_fail.is_none() {
+                    l.first_fail = Some(h.saturating_sub(1));
+                }
+                l.failed += 1;
+                Err(std::sync::mpsc::SendError(m))
+            }
+        };
+        match kind {
+            StageSpec::Lc => {
+                let (_r, w) = evmap::Options::default().with_hasher(Hasher::default()).construct::<LifecycleId, LifecycleItem>();
+                let _w = parse_lifecycles_buffered_from_stream(w, rx, &outflow);
+            }
+            StageSpec::Plugins(k, _) => {
+                let mut plugins: Vec<Box<dyn Plugin + Send>> = vec![];
+                if k >= 2 {
+                    plugins.push(Box::new(DropEvery { k, state: Arc::new(RwLock::new(PluginState::default())) }));
+                    plugins.push(Box::new(Numbering { n: 0, state: Arc::new(RwLock::new(PluginState::default())) }));
+                }
+                let _ = plugins_process_msgs(rx, &outflow, plugins);
+            }
+            StageSpec::Sort(win, delay, _) => {
+                let (r, _w) = evmap::Options::default().with_hasher(Hasher::default()).construct::<LifecycleId, LifecycleItem>();
+                let _ = buffer_sort_messages(rx, &outflow, &r, win, delay);
+            }
+            StageSpec::Filter(fs) => {
+                let filters: Vec<Filter> = fs.iter().map(|j| Filter::from_json(j).expect("filter json")).collect();
+                let _ = filter_as_streams(&filters, &rx, &outflow);
+            }
+        }
+    });
+    let mut disconnected = false;
+    let mut gave_up = false;
+    'feed: for (i, spec) in sc.msgs.iter().enumerate() {
+        let mut msg = build_msg(i, spec);
+        let t0 = Instant::now();
+        loop {
+            let mut g = handed.lock().unwrap();
+            match tx.try_send(msg) {
+                Ok(()) => {
+                    *g += 1;
+                    break;
+                }
+                Err(TrySendError::Full(m)) => {
+                    msg = m;
+                    drop(g);
+                    if t0.elapsed() > watchdog {
+                        gave_up = true;
+                        break 'feed;
+                    }
+                    std::thread::yield_now();
+                }
+                Err(TrySendError::Disconnected(_)) => {
+                    disconnected = true;
+                    break 'feed;
+                }
+            }
+        }
+    }
+    drop(tx);
+    let returned = !gave_up && done_rx.recv_timeout(watchdog).is_ok();
+    if returned {
+        let _ = th.join();
+    }
+    let h = *handed.lock().unwrap();
+    let l = log.lock().unwrap();
+    LossRun { handed: h, disconnected, returned, calls: l.ok.clone(), first_fail: l.first_fail, failed_calls: l.failed }
+}
+
+/// rows (id, drained, direct) and flush outputs of the undisturbed run
+fn loss_rows(n: usize, is_lc: bool, calls: &[(u32, usize)]) -> (Vec<(Vec<u32>, Option<u32>)>, Vec<u32>) {
+    let mut rows: Vec<(Vec<u32>, Option<u32>)> = vec![(vec![], None); n];
+    let mut flush = vec![];
+    for (id, it) in calls {
+        if n == 0 {
+            flush.push(*id);
+            continue;
+        }
+        let it = (*it).min(n - 1);
+        if !is_lc {
+            // sort / plugins / filter: one list of sends per iteration (the final flush is part of the last one)
+            rows[it].0.push(*id);
+        } else if rows[it].1.is_some() {
+            // after the direct forward of the last iteration: the final flush
+            flush.push(*id);
+        } else if *id as usize == it {
+            rows[it].1 = Some(*id);
+        } else {
+            rows[it].0.push(*id);
+        }
+    }
+    (rows, flush)
+}
+
+struct LossDone {
+    sc: LossScenario,
+    ks: Vec<usize>,
+    input_coq: String,
+    obs: O,
+    verdict: Verdict,
+    tags: Vec<String>,
+    runs: usize,
+    calm_after_tail: usize,
+}
+
+fn loss_case(sc: &LossScenario, ks_replay: Option<Vec<usize>>) -> LossDone {
+    let watchdog = Duration::from_secs(5);
+    let n = sc.msgs.len();
+    let is_lc = sc.kind == StageSpec::Lc;
+    let fail = |c: &str, d: String| Verdict::Fail { clause: c.into(), detail: d };
+    let r = run_loss(sc, None, watchdog);
+    let (rows, fl) = loss_rows(n, is_lc, &r.calls);
+    let mut verdict = Verdict::Ok;
+    let fam: Vec<&str> = sc.family.split('@').collect();
+    let mut tags = vec![format!("loss_{}", sc.kind.tag()), format!("loss_family_{}", fam[0])];
+    if let Some(i) = fam.get(1).and_then(|x| x.parse::<usize>().ok()) {
+        // the message that pulls the apparent reboot back into the confirmed lifecycle: did the merge path drain the queue here?
+        if rows.get(i).map_or(false, |r| !r.0.is_empty()) {
+            tags.push("loss_merge_path_drain_hit".into());
+        }
+    }
+    if !r.returned || r.handed != n || r.disconnected {
+        verdict = fail("loss_reference_completes", format!("undisturbed run: returned={} pulled {} of {} disconnected={}", r.returned, r.handed, n, r.disconnected));
+    }
+    // the point from which every message is forwarded directly in the undisturbed run
+    let plain = |i: usize| is_lc && rows[i].0.is_empty() && rows[i].1 == Some(i as u32);
+    let mut calm = n;
+    while calm > 0 && plain(calm - 1) {
+        calm -= 1;
+    }
+    let calm_after_tail = calm.saturating_sub(sc.tail_from);
+    if is_lc && (calm >= n || calm_after_tail > L_CONF) {
+        tags.push("loss_tail_not_calm".into());
+        if matches!(verdict, Verdict::Ok) {
+            verdict = fail("loss_tail_calms_down", format!("the tidy tail was not forwarded directly after {} messages (calm point {}, tail from {})", L_CONF, calm, sc.tail_from));
+        }
+    }
+    // rows given to the model: up to the calm point + 2 for the lifecycle stage (beyond: forwarded directly), all otherwise
+    let upto = if is_lc { (calm + 2).min(n) } else { n };
+    let calls_upto = r.calls.iter().filter(|c| c.1 < upto).count();
+    let ks: Vec<usize> = match ks_replay {
+        Some(k) => k,
+        None => {
+            let top = if is_lc { calls_upto + 1 } else { r.calls.len() + 1 };
+            let stride = top / 100 + 1;
+            let mut v: Vec<usize> = (0..=top).step_by(stride).collect();
+            if !v.contains(&top) {
+                v.push(top);
+            }
+            v
+        }
+    };
+    let mut sites = std::collections::BTreeSet::new();
+    let mut obs = vec![];
+    for k in &ks {
+        let b = run_loss(sc, Some(*k), watchdog);
+        // observation, coarsened like the model's: the last iteration and the final flush are not told apart
+        let early = b.disconnected && b.handed < n;
+        let ffc = match b.first_fail {
+            None => 0,
+            Some(i) => 1 + i.min(n.saturating_sub(1)) as u64,
+        };
+        let sum = b.calls.iter().fold(0u64, |acc, c| (acc * 31 + c.0 as u64 + 1) % 1_000_003);
+        obs.push(O::T(vec![O::b(early), O::n(b.handed as u64), O::n(ffc), O::n(b.calls.len() as u64), O::n(sum)]));
+        if let Some(c) = r.calls.get(*k) {
+            let site = if c.1 + 1 >= n && rows.get(n - 1).map_or(false, |row| row.1.is_none() || fl.contains(&c.0)) {
+                "flush_or_last"
+            } else if c.0 as usize == c.1 {
+                "direct"
+            } else {
+                "drain"
+            };
+            sites.insert(site);
+        }
+        if !matches!(verdict, Verdict::Ok) {
+            continue;
+        }
+        // ---- the property, stated on what the stage did
+        if !b.returned {
+            verdict = fail("stage_returns_after_consumer_loss", format!("k={}: the stage function did not return within {:?} after its producer stopped", k, watchdog));
+            continue;
+        }
+        let want: Vec<u32> = r.calls.iter().take(*k).map(|c| c.0).collect();
+        let got: Vec<u32> = b.calls.iter().map(|c| c.0).collect();
+        if got != want {
+            verdict = fail("loss_delivered_prefix", format!("k={}: the consumer got {:?}, the undisturbed run starts with {:?}", k, got, want));
+            continue;
+        }
+        match b.first_fail {
+            None => {
+                if b.handed != n || b.disconnected {
+                    verdict = fail("no_loss_no_stop", format!("k={}: no send failed but the stage pulled {} of {} (disconnected={})", k, b.handed, n, b.disconnected));
+                }
+            }
+            Some(i0) => {
+                let pulled_after = b.handed.saturating_sub(i0 + 1);
+                let bound = if is_lc { sc.tail_from.saturating_sub(i0 + 1) + L_CONF } else { 0 };
+                if pulled_after > bound {
+                    verdict = fail(
+                        "bounded_pull_after_consumer_loss",
+                        format!("k={}: first failed send while processing message {}, the stage pulled {} more messages from its producer (bound {}; {} of {} messages pulled, producer told: {})", k, i0, pulled_after, bound, b.handed, n, b.disconnected),
+                    );
+                } else if i0 + 1 + bound < n && !b.disconnected {
+                    verdict = fail("producer_told_after_consumer_loss", format!("k={}: the producer was never refused a message ({} of {} pulled)", k, b.handed, n));
+                }
+            }
+        }
+    }
+    for s in &sites {
+        tags.push(format!("loss_fail_site_{}", s));
+    }
+    let rows_coq = clist(
+        &rows.iter().take(upto).enumerate().map(|(i, (dr, d))| format!("({}, {}, {})", i, cnums(dr), copt(d.map(|x| x.to_string())))).collect::<Vec<_>>(),
+    );
+    let input_coq = format!("inr ({}, {}, {}, {}, {})", if is_lc { 1 } else { 0 }, n, rows_coq, cnums(&fl), cnums(&ks));
+    LossDone { sc: sc.clone(), runs: ks.len() + 1, ks, input_coq, obs: O::T(obs), verdict, tags, calm_after_tail }
+}
+
+fn loss_json(sc: &LossScenario, ks: &[usize]) -> Value {
+    json!({"loss": true, "kind": sc.kind.to_json(), "msgs": sc.msgs, "tail_from": sc.tail_from, "family": sc.family, "ks": ks})
+}
+fn loss_from_json(v: &Value) -> (LossScenario, Vec<usize>) {
+    (
+        LossScenario {
+            kind: StageSpec::from_json(&v["kind"]),
+            msgs: serde_json::from_value(v["msgs"].clone()).unwrap(),
+            tail_from: v["tail_from"].as_u64().unwrap() as usize,
+            family: v["family"].as_str().unwrap_or("replay").to_string(),
+        },
+        serde_json::from_value(v["ks"].clone()).unwrap(),
+    )
+}
+
+fn push_loss(sink: &mut Sink, d: LossDone) {
+    let input_json = loss_json(&d.sc, &d.ks);
+    let key = input_json.to_string();
+    let nontrivial = d.ks.len() >= 3 && d.sc.tail_from >= 3;
+    let id = sink.next_id();
+    sink.push(Case { id, input_coq: d.input_coq, input_json, obs: d.obs, verdict: d.verdict, classes: vec![], tags: d.tags, nontrivial, key });
 }
 
 fn corpus() -> Vec<Pipeline> {
@@ -808,30 +1290,33 @@ fn corpus() -> Vec<Pipeline> {
     let full = vec![StageSpec::Lc, StageSpec::Plugins(3, vec![]), StageSpec::Sort(3, 100_000, false), StageSpec::Filter(vec![r#"{"type":1,"apid":"AP1"}"#.to_string()])];
     vec![
         // empty stream through everything
-        Pipeline { msgs: vec![], stages: full.clone() },
+        Pipeline { msgs: vec![], stages: full.clone(), tail_from: None },
         // one message
-        Pipeline { msgs: vec![(1, RHO, 10, 0)], stages: full.clone() },
+        Pipeline { msgs: vec![(1, RHO, 10, 0)], stages: full.clone(), tail_from: None },
         // DESIGN Appendix A C07-1 (merge of a confirmed lifecycle): buffering + release in bursts
         Pipeline {
             msgs: vec![(1, RHO, 200000, 0), (2, RHO + s / 5, 0, 0), (1, RHO + s / 2, 0, 0), (1, RHO - s, 0, 0), (3, RHO + 60 * s + s / 10, 0, 0), (1, RHO - 5 * s, 0, 0)],
             stages: vec![StageSpec::Lc, StageSpec::Plugins(0, vec![0, 3, 0, 0, 2])],
+            tail_from: None,
         },
         // two boots of one ecu, everything buffered until the end, live sort
         Pipeline {
             msgs: (0..20).map(|i| (1u8, RHO + i * 100_000 + if i >= 10 { 100 * s } else { 0 }, ((i % 10) * 1000 + 10) as u32, 0u8)).collect(),
             stages: vec![StageSpec::Lc, StageSpec::Plugins(2, vec![]), StageSpec::Sort(3, 1_000, true), StageSpec::Filter(vec![r#"{"type":0,"ecu":"EC01"}"#.to_string()])],
+            tail_from: None,
         },
         // long tidy stream, no lifecycle stage
-        Pipeline { msgs: (0..40).map(|i| (1 + (i % 2) as u8, RHO + i * 1000, (i * 10) as u32, 0u8)).collect(), stages: vec![StageSpec::Plugins(4, vec![1, 0, 0, 3]), StageSpec::Filter(vec![r#"{"type":0,"ecu":"EC01"}"#.to_string()])] },
+        Pipeline { msgs: (0..40).map(|i| (1 + (i % 2) as u8, RHO + i * 1000, (i * 10) as u32, 0u8)).collect(), stages: vec![StageSpec::Plugins(4, vec![1, 0, 0, 3]), StageSpec::Filter(vec![r#"{"type":0,"ecu":"EC01"}"#.to_string()])], tail_from: None },
         // live sort whose view of the lifecycle table depends on timing: lifecycle A is confirmed (and published with
         // start 0.5 s) at message 2, message 3 moves its start to 0.1 s, which is only published at the end;
         // messages 0 (A, 1.0 s or 0.6 s) and 1 (B, 0.85 s) swap their calculated order between the two values
         Pipeline {
             msgs: vec![(1, RHO + s, 5_000, 0), (2, RHO + s, 6_500, 0), (2, RHO + s + s / 5, 10_000, 0), (1, RHO + 80 * s, 795_000, 0), (1, RHO + 81 * s, 809_000, 0), (2, RHO + 81 * s + s / 10, 807_000, 0)],
             stages: vec![StageSpec::Lc, StageSpec::Sort(3, 2_000_000, true)],
+            tail_from: None,
         },
         // filter that passes nothing behind a sort
-        Pipeline { msgs: (0..12).map(|i| (1u8, RHO + (12 - i) * 1000, (i * 10) as u32, 0u8)).collect(), stages: vec![StageSpec::Sort(1, 0, false), StageSpec::Filter(vec![r#"{"type":0,"ecu":"EC09"}"#.to_string()])] },
+        Pipeline { msgs: (0..12).map(|i| (1u8, RHO + (12 - i) * 1000, (i * 10) as u32, 0u8)).collect(), stages: vec![StageSpec::Sort(1, 0, false), StageSpec::Filter(vec![r#"{"type":0,"ecu":"EC09"}"#.to_string()])], tail_from: None },
     ]
 }
 
@@ -844,6 +1329,12 @@ fn main() {
 
     if let Some(f) = &a.replay {
         let v = read_replay(f);
+        if v["case"]["loss"].as_bool() == Some(true) {
+            let (sc, ks) = loss_from_json(&v["case"]);
+            push_loss(&mut sink, loss_case(&sc, Some(ks)));
+            sink.finish();
+            return;
+        }
         let (p, s) = case_from_json(&v["case"]);
         let r = run_real(&p, &reference_script(&p), hang);
         let d = run_case(&p, &s, &r, hang);
@@ -861,6 +1352,14 @@ fn main() {
     let mut pipes = corpus();
     for _ in 0..npipes {
         pipes.push(gen_pipeline(&mut rng, max_msgs));
+    }
+    let n_tail_pipes = match a.tier.as_str() {
+        "quick" => 6,
+        "search" => 10,
+        _ => 60,
+    };
+    for i in 0..n_tail_pipes {
+        pipes.push(gen_loss_pipeline(&mut rng, i, max_msgs));
     }
     // jobs: (pipeline, script seeds); the reference run is done by the worker once per pipeline
     let jobs: Vec<(usize, Pipeline, u64)> = pipes.into_iter().enumerate().map(|(i, p)| (i, p, rng.next())).collect();
@@ -899,6 +1398,44 @@ fn main() {
         wall_max = wall_max.max(d.wall_ms);
         push(&mut sink, d);
     }
+    // loss experiments: one stage, lock-step live producer, outflow failing after k deliveries, k swept
+    let (n_lc, n_other) = match a.tier.as_str() {
+        "quick" => (24usize, 18usize),
+        "search" => (40, 30),
+        _ => (240, 120),
+    };
+    let scs = gen_loss_scenarios(&mut rng, n_lc, n_other, max_msgs);
+    let lq = Arc::new(Mutex::new(scs.into_iter().enumerate().collect::<Vec<_>>()));
+    let lres: Arc<Mutex<Vec<(usize, LossDone)>>> = Arc::new(Mutex::new(vec![]));
+    let mut ws = vec![];
+    for _ in 0..workers.min(8) {
+        let (lq, lres) = (lq.clone(), lres.clone());
+        ws.push(std::thread::spawn(move || loop {
+            let job = lq.lock().unwrap().pop();
+            match job {
+                Some((i, sc)) => {
+                    let d = loss_case(&sc, None);
+                    lres.lock().unwrap().push((i, d));
+                }
+                None => break,
+            }
+        }));
+    }
+    for w in ws {
+        let _ = w.join();
+    }
+    let mut lr = std::mem::take(&mut *lres.lock().unwrap());
+    lr.sort_by_key(|(i, _)| *i);
+    let (mut loss_runs, mut calm_max) = (0usize, 0usize);
+    let n_loss = lr.len();
+    for (_, d) in lr {
+        loss_runs += d.runs;
+        calm_max = calm_max.max(d.calm_after_tail);
+        push_loss(&mut sink, d);
+    }
+    sink.extra_stats.insert("loss_scenarios".into(), json!(n_loss));
+    sink.extra_stats.insert("loss_runs_of_a_real_stage".into(), json!(loss_runs));
+    sink.extra_stats.insert("loss_tail_messages_until_all_direct_max".into(), json!(calm_max));
     sink.extra_stats.insert("pipelines".into(), json!(njobs));
     sink.extra_stats.insert("capacity_vectors_per_pipeline".into(), json!(nvec));
     sink.extra_stats.insert("sends_through_full_branch_of_helper".into(), json!(full_total));
